@@ -680,8 +680,12 @@ class H2Connection(Protocol, TimeoutMixin):
                 self.priority.unblock(streamID)
             self.streams[streamID].windowUpdated()
         else:
-            # Update strictly applies to all streams.
-            for stream in self.streams.values():
+            # Update strictly applies to all streams.  Producers resumed here
+            # may finish their streams, which removes them from self.streams,
+            # so iterate over a copy.
+            for stream in list(self.streams.values()):
+                if not self._streamIsActive(stream.streamID):
+                    continue
                 stream.windowUpdated()
 
                 # If we still have data to send for this stream, unblock it.
